@@ -24,6 +24,20 @@ Theorem C07_blacklist_beats_whitelist : forall s a p,
 Proof. exact blacklist_beats_whitelist. Qed.
 Print Assumptions C07_blacklist_beats_whitelist.
 
+(* ... at every state of every history, for arbitrary role sets ... *)
+Theorem C07_blacklist_beats_whitelist_along_histories : forall c ops s a p,
+  (bl_direct (run c s ops) a p \/ exists r, has_role (run c s ops) a r /\ bl_role (run c s ops) r p) -> check_allowed (run c s ops) a p = false.
+Proof. exact blacklist_beats_whitelist_history. Qed.
+Print Assumptions C07_blacklist_beats_whitelist_along_histories.
+(* ... and a personal blacklist entry outlives every history of role / permission edits that does not
+   remove that very entry (induction over the op list): whatever is whitelisted meanwhile, directly or
+   through any roles, the actor is denied *)
+Theorem C07_own_blacklist_denies_after_any_edits : forall c ops s a p,
+  forallb (keeps_own_bl a p) ops = true -> bl_direct s a p ->
+  bl_direct (run c s ops) a p /\ check_allowed (run c s ops) a p = false.
+Proof. exact own_blacklist_denies_after_any_edits. Qed.
+Print Assumptions C07_own_blacklist_denies_after_any_edits.
+
 (* Every history of edits (by message, by proposal, by genesis export/import, by rotation) keeps the
    three lookup indexes equal to the sets recomputed from the actor and role records.
    For every variant: along histories that avoid the operations refuted for that variant. *)
@@ -36,6 +50,21 @@ Theorem C07_indexes_refine_repaired : forall c, claim_indexed c = true -> rotate
   forall ops s, inv s -> fresh_targets c s ops -> inv (run c s ops).
 Proof. exact indexes_refine_repaired. Qed.
 Print Assumptions C07_indexes_refine_repaired.
+(* THE WORKING TREE (variant read off the code by the translator): full strength -- every history, the
+   index equalities and the exact voter sets; no councilor guard, no rotation guard other than the target
+   not owning a record, genesis import included *)
+Theorem C07_indexes_refine_tree : forall ops s, inv s -> fresh_targets tree_cfg s ops -> inv (run tree_cfg s ops).
+Proof. exact (indexes_refine_repaired tree_cfg eq_refl eq_refl). Qed.
+Print Assumptions C07_indexes_refine_tree.
+Theorem C07_voters_exact_tree : forall ops s p, inv s -> fresh_targets tree_cfg s ops ->
+  exists l, voters (run tree_cfg s ops) p = Ok l /\ NoDup l /\
+            forall a, In a l <-> (wl_direct (run tree_cfg s ops) a p \/ exists r, has_role (run tree_cfg s ops) a r /\ wl_role (run tree_cfg s ops) r p).
+Proof. exact (voters_exact_history tree_cfg eq_refl eq_refl). Qed.
+Print Assumptions C07_voters_exact_tree.
+Theorem C07_import_preserves_holdings_tree : forall s s', inv s -> step tree_cfg s OExportImport = Ok s' ->
+  inv s' /\ forall a p, check_allowed s' a p = check_allowed s a p.
+Proof. exact (fun s s' => import_step_preserves_holdings tree_cfg s s' eq_refl). Qed.
+Print Assumptions C07_import_preserves_holdings_tree.
 Theorem C07_rotation_overwrite_refuted : forall c, exists ops, ~ inv (run c empty_state ops).
 Proof. exact rotation_overwrite_refuted. Qed.
 Print Assumptions C07_rotation_overwrite_refuted.
@@ -214,8 +243,299 @@ Definition expected_proposal_perms : list string := [
 ]%string.
 Theorem C07_gates_complete :
   incl expected_msg_gates Gates.msg_gates /\ incl expected_proposal_perms Gates.proposal_perms /\ Gates.gen_errors = [].
-Proof. split; [|split]; [apply incl_strb_sound; vm_compute; reflexivity ..|reflexivity]. Qed.
+Proof. exact (gates_complete_sound Gates.msg_gates expected_msg_gates Gates.proposal_perms expected_proposal_perms Gates.gen_errors eq_refl). Qed.
 Print Assumptions C07_gates_complete.
+
+(* ---- every sdk.Msg type of the kira modules registered in the application, classified by whether its
+   handler carries a permission gate.  Equality both ways: a NEW message type (gated or not) is not in the
+   pinned list and breaks this obligation until it is classified; so does a gate removed from a handler. *)
+Definition expected_msg_classes : list string := [
+  "kira.basket.MsgBasketClaimRewards:ungated";
+  "kira.basket.MsgBasketTokenBurn:ungated";
+  "kira.basket.MsgBasketTokenMint:ungated";
+  "kira.basket.MsgBasketTokenSwap:ungated";
+  "kira.basket.MsgDisableBasketDeposits:gated";
+  "kira.basket.MsgDisableBasketSwaps:gated";
+  "kira.basket.MsgDisableBasketWithdraws:gated";
+  "kira.collectives.MsgBondCollective:ungated";
+  "kira.collectives.MsgCreateCollective:ungated";
+  "kira.collectives.MsgDonateCollective:ungated";
+  "kira.collectives.MsgWithdrawCollective:ungated";
+  "kira.custody.MsgAddToCustodyCustodians:ungated";
+  "kira.custody.MsgAddToCustodyLimits:ungated";
+  "kira.custody.MsgAddToCustodyWhiteList:ungated";
+  "kira.custody.MsgApproveCustodyTransaction:ungated";
+  "kira.custody.MsgCreateCustodyRecord:ungated";
+  "kira.custody.MsgDeclineCustodyTransaction:ungated";
+  "kira.custody.MsgDisableCustodyRecord:ungated";
+  "kira.custody.MsgDropCustodyCustodians:ungated";
+  "kira.custody.MsgDropCustodyLimits:ungated";
+  "kira.custody.MsgDropCustodyRecord:ungated";
+  "kira.custody.MsgDropCustodyWhiteList:ungated";
+  "kira.custody.MsgPasswordConfirmTransaction:ungated";
+  "kira.custody.MsgRemoveFromCustodyCustodians:ungated";
+  "kira.custody.MsgRemoveFromCustodyLimits:ungated";
+  "kira.custody.MsgRemoveFromCustodyWhiteList:ungated";
+  "kira.custody.MsgSend:ungated";
+  "kira.ethereum.MsgRelay:ungated";
+  "kira.evidence.MsgSubmitEvidence:ungated";
+  "kira.gov.MsgAssignRole:gated";
+  "kira.gov.MsgBlacklistPermissions:gated";
+  "kira.gov.MsgBlacklistRolePermission:gated";
+  "kira.gov.MsgCancelIdentityRecordsVerifyRequest:ungated";
+  "kira.gov.MsgClaimCouncilor:gated";
+  "kira.gov.MsgCouncilorActivate:ungated";
+  "kira.gov.MsgCouncilorPause:ungated";
+  "kira.gov.MsgCouncilorUnpause:ungated";
+  "kira.gov.MsgCreateRole:gated";
+  "kira.gov.MsgDeleteIdentityRecords:ungated";
+  "kira.gov.MsgHandleIdentityRecordsVerifyRequest:ungated";
+  "kira.gov.MsgPollCreate:gated";
+  "kira.gov.MsgPollVote:ungated";
+  "kira.gov.MsgRegisterIdentityRecords:ungated";
+  "kira.gov.MsgRemoveBlacklistRolePermission:gated";
+  "kira.gov.MsgRemoveBlacklistedPermissions:gated";
+  "kira.gov.MsgRemoveWhitelistRolePermission:gated";
+  "kira.gov.MsgRemoveWhitelistedPermissions:gated";
+  "kira.gov.MsgRequestIdentityRecordsVerify:ungated";
+  "kira.gov.MsgSetExecutionFee:gated";
+  "kira.gov.MsgSetNetworkProperties:gated";
+  "kira.gov.MsgSubmitProposal:gated";
+  "kira.gov.MsgUnassignRole:gated";
+  "kira.gov.MsgVoteProposal:gated";
+  "kira.gov.MsgWhitelistPermissions:gated";
+  "kira.gov.MsgWhitelistRolePermission:gated";
+  "kira.layer2.MsgAckTransferDappTx:ungated";
+  "kira.layer2.MsgApproveDappTransitionTx:ungated";
+  "kira.layer2.MsgBondDappProposal:ungated";
+  "kira.layer2.MsgConvertDappPoolTx:ungated";
+  "kira.layer2.MsgCreateDappProposal:gated";
+  "kira.layer2.MsgDenounceLeaderTx:ungated";
+  "kira.layer2.MsgExecuteDappTx:ungated";
+  "kira.layer2.MsgExitDapp:ungated";
+  "kira.layer2.MsgJoinDappVerifierWithBond:ungated";
+  "kira.layer2.MsgMintBurnTx:ungated";
+  "kira.layer2.MsgMintCreateFtTx:ungated";
+  "kira.layer2.MsgMintCreateNftTx:ungated";
+  "kira.layer2.MsgMintIssueTx:ungated";
+  "kira.layer2.MsgPauseDappTx:ungated";
+  "kira.layer2.MsgReactivateDappTx:ungated";
+  "kira.layer2.MsgReclaimDappBondProposal:ungated";
+  "kira.layer2.MsgRedeemDappPoolTx:ungated";
+  "kira.layer2.MsgRejectDappTransitionTx:ungated";
+  "kira.layer2.MsgSwapDappPoolTx:ungated";
+  "kira.layer2.MsgTransferDappTx:ungated";
+  "kira.layer2.MsgTransitionDappTx:ungated";
+  "kira.layer2.MsgUnPauseDappTx:ungated";
+  "kira.multistaking.MsgClaimMaturedUndelegations:ungated";
+  "kira.multistaking.MsgClaimRewards:ungated";
+  "kira.multistaking.MsgClaimUndelegation:ungated";
+  "kira.multistaking.MsgDelegate:ungated";
+  "kira.multistaking.MsgRegisterDelegator:ungated";
+  "kira.multistaking.MsgSetCompoundInfo:ungated";
+  "kira.multistaking.MsgUndelegate:ungated";
+  "kira.multistaking.MsgUpsertStakingPool:ungated";
+  "kira.recovery.MsgBurnRecoveryTokens:ungated";
+  "kira.recovery.MsgClaimRRHolderRewards:ungated";
+  "kira.recovery.MsgIssueRecoveryTokens:ungated";
+  "kira.recovery.MsgRegisterRRTokenHolder:ungated";
+  "kira.recovery.MsgRegisterRecoverySecret:ungated";
+  "kira.recovery.MsgRotateRecoveryAddress:ungated";
+  "kira.recovery.MsgRotateValidatorByHalfRRTokenHolder:ungated";
+  "kira.slashing.MsgActivate:ungated";
+  "kira.slashing.MsgPause:ungated";
+  "kira.slashing.MsgRefuteSlashingProposal:ungated";
+  "kira.slashing.MsgUnpause:ungated";
+  "kira.spending.MsgClaimSpendingPool:ungated";
+  "kira.spending.MsgCreateSpendingPool:ungated";
+  "kira.spending.MsgDepositSpendingPool:ungated";
+  "kira.spending.MsgRegisterSpendingPoolBeneficiary:ungated";
+  "kira.staking.MsgClaimValidator:gated";
+  "kira.tokens.MsgEthereumTx:ungated";
+  "kira.tokens.MsgUpsertTokenInfo:gated"
+]%string.
+Theorem C07_every_message_classified :
+  incl Gates.msg_classes expected_msg_classes /\ incl expected_msg_classes Gates.msg_classes.
+Proof. exact (incl_both_sound Gates.msg_classes expected_msg_classes eq_refl). Qed.
+Print Assumptions C07_every_message_classified.
+
+(* ---- every call site that writes the permission stores from outside gov's two keeper files (message
+   server, proposal handlers, genesis, x/recovery rotation): the ones the model covers.  A new writer
+   breaks this obligation. *)
+Definition expected_external_writers : list string := [
+  "x/gov/genesis.go:InitGenesis:AssignRoleToActor x1";
+  "x/gov/genesis.go:InitGenesis:BlacklistRolePermission x1";
+  "x/gov/genesis.go:InitGenesis:SaveNetworkActor x1";
+  "x/gov/genesis.go:InitGenesis:SetNextRoleId x1";
+  "x/gov/genesis.go:InitGenesis:SetRole x1";
+  "x/gov/genesis.go:InitGenesis:SetWhitelistAddressPermKey x1";
+  "x/gov/genesis.go:InitGenesis:WhitelistRolePermission x1";
+  "x/gov/handler.go:NewHandler:BlacklistRolePermission x1";
+  "x/gov/handler.go:NewHandler:CreateRole x1";
+  "x/gov/handler.go:NewHandler:RemoveBlacklistRolePermission x1";
+  "x/gov/handler.go:NewHandler:RemoveWhitelistRolePermission x1";
+  "x/gov/handler.go:NewHandler:WhitelistRolePermission x1";
+  "x/gov/keeper/msg_server.go:msgServer.AssignRole:AssignRoleToAccount x1";
+  "x/gov/keeper/msg_server.go:msgServer.BlacklistPermissions:SaveNetworkActor x1";
+  "x/gov/keeper/msg_server.go:msgServer.BlacklistRolePermission:BlacklistRolePermission x1";
+  "x/gov/keeper/msg_server.go:msgServer.ClaimCouncilor:AddWhitelistPermission x1";
+  "x/gov/keeper/msg_server.go:msgServer.CreateRole:CreateRole x1";
+  "x/gov/keeper/msg_server.go:msgServer.RemoveBlacklistRolePermission:RemoveBlacklistRolePermission x1";
+  "x/gov/keeper/msg_server.go:msgServer.RemoveBlacklistedPermissions:SaveNetworkActor x1";
+  "x/gov/keeper/msg_server.go:msgServer.RemoveWhitelistRolePermission:RemoveWhitelistRolePermission x1";
+  "x/gov/keeper/msg_server.go:msgServer.RemoveWhitelistedPermissions:RemoveWhitelistedPermission x1";
+  "x/gov/keeper/msg_server.go:msgServer.UnassignRole:UnassignRoleFromAccount x1";
+  "x/gov/keeper/msg_server.go:msgServer.WhitelistPermissions:AddWhitelistPermission x1";
+  "x/gov/keeper/msg_server.go:msgServer.WhitelistRolePermission:WhitelistRolePermission x1";
+  "x/gov/proposal_handler.go:ApplyAssignRoleToAccountProposalHandler.Apply:AssignRoleToAccount x1";
+  "x/gov/proposal_handler.go:ApplyBlacklistAccountPermissionProposalHandler.Apply:AddBlacklistPermission x1";
+  "x/gov/proposal_handler.go:ApplyBlacklistRolePermissionProposalHandler.Apply:BlacklistRolePermission x1";
+  "x/gov/proposal_handler.go:ApplyRemoveBlacklistedAccountPermissionProposalHandler.Apply:RemoveBlacklistedPermission x1";
+  "x/gov/proposal_handler.go:ApplyRemoveBlacklistedRolePermissionProposalHandler.Apply:RemoveBlacklistRolePermission x1";
+  "x/gov/proposal_handler.go:ApplyRemoveRoleProposalHandler.Apply:DeleteRole x1";
+  "x/gov/proposal_handler.go:ApplyRemoveWhitelistedAccountPermissionProposalHandler.Apply:RemoveWhitelistedPermission x1";
+  "x/gov/proposal_handler.go:ApplyRemoveWhitelistedRolePermissionProposalHandler.Apply:RemoveWhitelistRolePermission x1";
+  "x/gov/proposal_handler.go:ApplyUnassignRoleFromAccountProposalHandler.Apply:UnassignRoleFromAccount x1";
+  "x/gov/proposal_handler.go:ApplyWhitelistAccountPermissionProposalHandler.Apply:AddWhitelistPermission x1";
+  "x/gov/proposal_handler.go:ApplyWhitelistRolePermissionProposalHandler.Apply:WhitelistRolePermission x1";
+  "x/gov/proposal_handler.go:CreateRoleProposalHandler.Apply:BlacklistRolePermission x1";
+  "x/gov/proposal_handler.go:CreateRoleProposalHandler.Apply:CreateRole x1";
+  "x/gov/proposal_handler.go:CreateRoleProposalHandler.Apply:WhitelistRolePermission x1";
+  "x/recovery/keeper/msg_server.go:msgServer.RotateRecoveryAddress:AssignRoleToActor x1";
+  "x/recovery/keeper/msg_server.go:msgServer.RotateRecoveryAddress:DeleteNetworkActor x1";
+  "x/recovery/keeper/msg_server.go:msgServer.RotateRecoveryAddress:DeleteWhitelistAddressPermKey x1";
+  "x/recovery/keeper/msg_server.go:msgServer.RotateRecoveryAddress:SaveNetworkActor x1";
+  "x/recovery/keeper/msg_server.go:msgServer.RotateRecoveryAddress:SetWhitelistAddressPermKey x1";
+  "x/recovery/keeper/msg_server.go:msgServer.RotateRecoveryAddress:UnassignRoleFromActor x1";
+  "x/recovery/keeper/msg_server.go:msgServer.RotateValidatorByHalfRRTokenHolder:AssignRoleToActor x1";
+  "x/recovery/keeper/msg_server.go:msgServer.RotateValidatorByHalfRRTokenHolder:DeleteNetworkActor x1";
+  "x/recovery/keeper/msg_server.go:msgServer.RotateValidatorByHalfRRTokenHolder:DeleteWhitelistAddressPermKey x1";
+  "x/recovery/keeper/msg_server.go:msgServer.RotateValidatorByHalfRRTokenHolder:SaveNetworkActor x1";
+  "x/recovery/keeper/msg_server.go:msgServer.RotateValidatorByHalfRRTokenHolder:SetWhitelistAddressPermKey x1";
+  "x/recovery/keeper/msg_server.go:msgServer.RotateValidatorByHalfRRTokenHolder:UnassignRoleFromActor x1"
+]%string.
+Theorem C07_permission_store_writers_pinned :
+  incl Gates.external_writers expected_external_writers /\ incl expected_external_writers Gates.external_writers.
+Proof. exact (incl_both_sound Gates.external_writers expected_external_writers eq_refl). Qed.
+Print Assumptions C07_permission_store_writers_pinned.
+
+(* ---- fingerprints of the function bodies the hand-written model was made from (at /repo HEAD): an
+   edit to any of them breaks this obligation and makes the check widen its search *)
+Definition expected_fingerprints : list string := [
+  "x/basket/keeper/keeper.go:Keeper.CheckIfAllowedPermission:c4dc32848919";
+  "x/collectives/keeper/keeper.go:Keeper.CheckIfAllowedPermission:c4dc32848919";
+  "x/gov/genesis.go:ExportGenesis:40f720b6e1f0";
+  "x/gov/genesis.go:InitGenesis:327ac8651436";
+  "x/gov/keeper/msg_server.go:msgServer.AssignRole:00297d8bb4ed";
+  "x/gov/keeper/msg_server.go:msgServer.BlacklistPermissions:4dfe3d523f45";
+  "x/gov/keeper/msg_server.go:msgServer.BlacklistRolePermission:4bf1b48e0e18";
+  "x/gov/keeper/msg_server.go:msgServer.ClaimCouncilor:fbe56f9cc082";
+  "x/gov/keeper/msg_server.go:msgServer.CreateRole:bd330cb75230";
+  "x/gov/keeper/msg_server.go:msgServer.PollCreate:955c456fc3ca";
+  "x/gov/keeper/msg_server.go:msgServer.RemoveBlacklistRolePermission:f15e6f43335b";
+  "x/gov/keeper/msg_server.go:msgServer.RemoveBlacklistedPermissions:964353eaa64d";
+  "x/gov/keeper/msg_server.go:msgServer.RemoveWhitelistRolePermission:28d2d594f9b9";
+  "x/gov/keeper/msg_server.go:msgServer.RemoveWhitelistedPermissions:9ea79f83b2da";
+  "x/gov/keeper/msg_server.go:msgServer.SubmitProposal:09122568905a";
+  "x/gov/keeper/msg_server.go:msgServer.UnassignRole:85ccd706623a";
+  "x/gov/keeper/msg_server.go:msgServer.VoteProposal:271f610410d3";
+  "x/gov/keeper/msg_server.go:msgServer.WhitelistPermissions:6bc8d6e79e99";
+  "x/gov/keeper/msg_server.go:msgServer.WhitelistRolePermission:d8fb352c462a";
+  "x/gov/keeper/network_actor.go:Keeper.AddBlacklistPermission:a3b84d3af3e9";
+  "x/gov/keeper/network_actor.go:Keeper.AddWhitelistPermission:e8b1a0f8d374";
+  "x/gov/keeper/network_actor.go:Keeper.AssignRoleToAccount:1ea97ff0b141";
+  "x/gov/keeper/network_actor.go:Keeper.AssignRoleToActor:8bc27c2f76e9";
+  "x/gov/keeper/network_actor.go:Keeper.DeleteNetworkActor:0227a97ce6dd";
+  "x/gov/keeper/network_actor.go:Keeper.DeleteWhitelistAddressPermKey:7599121b3fe2";
+  "x/gov/keeper/network_actor.go:Keeper.GetNetworkActorByAddress:64c331ff6278";
+  "x/gov/keeper/network_actor.go:Keeper.GetNetworkActorFromIterator:5beb3dd3472a";
+  "x/gov/keeper/network_actor.go:Keeper.GetNetworkActorOrFail:c3da031e8aac";
+  "x/gov/keeper/network_actor.go:Keeper.GetNetworkActorsByAbsoluteWhitelistPermission:b0282d95f9de";
+  "x/gov/keeper/network_actor.go:Keeper.GetNetworkActorsByRole:c80d8fd832f6";
+  "x/gov/keeper/network_actor.go:Keeper.GetNetworkActorsByWhitelistedPermission:15979d1f89b5";
+  "x/gov/keeper/network_actor.go:Keeper.GetNetworkActorsIterator:6e84b9818f02";
+  "x/gov/keeper/network_actor.go:Keeper.RemoveBlacklistedPermission:cbff61461b94";
+  "x/gov/keeper/network_actor.go:Keeper.RemoveWhitelistedPermission:3f73545bde1e";
+  "x/gov/keeper/network_actor.go:Keeper.SaveNetworkActor:0941e93e23c2";
+  "x/gov/keeper/network_actor.go:Keeper.SetWhitelistAddressPermKey:a7e62635f17e";
+  "x/gov/keeper/network_actor.go:Keeper.UnassignRoleFromAccount:f3a4f3bedd37";
+  "x/gov/keeper/network_actor.go:Keeper.UnassignRoleFromActor:020a3aaaf28d";
+  "x/gov/keeper/network_actor.go:WhitelistAddressPermKey:5befa5c0990a";
+  "x/gov/keeper/network_actor.go:WhitelistPermKey:f650ba552072";
+  "x/gov/keeper/network_actor.go:bytesToRole:c6f24eb795a4";
+  "x/gov/keeper/network_actor.go:permToBytes:808e4926c178";
+  "x/gov/keeper/network_actor.go:roleAddressKey:0a0e75080ce2";
+  "x/gov/keeper/network_actor.go:roleKey:7795f661deec";
+  "x/gov/keeper/network_actor.go:roleToBytes:89fbaa0a7a94";
+  "x/gov/keeper/permission_registry.go:Keeper.BlacklistRolePermission:0e0d8f7233a7";
+  "x/gov/keeper/permission_registry.go:Keeper.CheckIfAllowedPermission:d5077165b11b";
+  "x/gov/keeper/permission_registry.go:Keeper.CreateRole:f63a4295b8ae";
+  "x/gov/keeper/permission_registry.go:Keeper.DeleteRole:dc3c163359f6";
+  "x/gov/keeper/permission_registry.go:Keeper.GetAllRoles:2b8a347776d4";
+  "x/gov/keeper/permission_registry.go:Keeper.GetNextRoleId:e9c9c2edf8e4";
+  "x/gov/keeper/permission_registry.go:Keeper.GetPermissionsForRole:5a2e36893296";
+  "x/gov/keeper/permission_registry.go:Keeper.GetPermissionsFromIterator:97d8cbe583ff";
+  "x/gov/keeper/permission_registry.go:Keeper.GetRole:ee48957f418b";
+  "x/gov/keeper/permission_registry.go:Keeper.GetRoleBySid:f85a8a64b4ca";
+  "x/gov/keeper/permission_registry.go:Keeper.GetRoleIdFromIdentifierString:5385db727f26";
+  "x/gov/keeper/permission_registry.go:Keeper.GetRolesByWhitelistedPerm:c25800d384de";
+  "x/gov/keeper/permission_registry.go:Keeper.IterateRoles:dc3fd0d42055";
+  "x/gov/keeper/permission_registry.go:Keeper.RemoveBlacklistRolePermission:e975b0add7f5";
+  "x/gov/keeper/permission_registry.go:Keeper.RemoveWhitelistRolePermission:9088ea1f8145";
+  "x/gov/keeper/permission_registry.go:Keeper.SetNextRoleId:d277f8d0c366";
+  "x/gov/keeper/permission_registry.go:Keeper.SetRole:01a5fc26c6ab";
+  "x/gov/keeper/permission_registry.go:Keeper.SetWhiltelistPermRoleKey:d133850ae55f";
+  "x/gov/keeper/permission_registry.go:Keeper.WhitelistRolePermission:2f8ad26de107";
+  "x/gov/keeper/permission_registry.go:Keeper.deletePermissionsForRole:a4c5d1167f91";
+  "x/gov/keeper/permission_registry.go:Keeper.savePermissionsForRole:92898baa6de0";
+  "x/gov/keeper/permission_registry.go:prefixWhitelist:2562c511921c";
+  "x/gov/keeper/permission_registry.go:prefixWhitelistRole:4c5168abc21c";
+  "x/gov/keeper/util.go:CheckIfAllowedPermission:6a364acd28cf";
+  "x/gov/keeper/util.go:getRolePermissions:afc48c070b3c";
+  "x/gov/proposal_handler.go:ApplyAssignRoleToAccountProposalHandler.Apply:4354b3209d7e";
+  "x/gov/proposal_handler.go:ApplyBlacklistAccountPermissionProposalHandler.Apply:fef3ffe059b0";
+  "x/gov/proposal_handler.go:ApplyBlacklistRolePermissionProposalHandler.Apply:d01ef95ae53e";
+  "x/gov/proposal_handler.go:ApplyRemoveBlacklistedAccountPermissionProposalHandler.Apply:5a9934d38a65";
+  "x/gov/proposal_handler.go:ApplyRemoveBlacklistedRolePermissionProposalHandler.Apply:49f43ed15d95";
+  "x/gov/proposal_handler.go:ApplyRemoveRoleProposalHandler.Apply:6b7632582a74";
+  "x/gov/proposal_handler.go:ApplyRemoveWhitelistedAccountPermissionProposalHandler.Apply:60c55acb3a29";
+  "x/gov/proposal_handler.go:ApplyRemoveWhitelistedRolePermissionProposalHandler.Apply:ed8c28bafbb3";
+  "x/gov/proposal_handler.go:ApplyUnassignRoleFromAccountProposalHandler.Apply:032b84b0b915";
+  "x/gov/proposal_handler.go:ApplyWhitelistAccountPermissionProposalHandler.Apply:f89a6ad01acc";
+  "x/gov/proposal_handler.go:ApplyWhitelistRolePermissionProposalHandler.Apply:50422ec5a3df";
+  "x/gov/proposal_handler.go:CreateRoleProposalHandler.Apply:2bd5b499d946";
+  "x/gov/types/actor.go:GetActorsWithVoteWithVeto:8f31a76aa7e3";
+  "x/gov/types/actor.go:NetworkActor.CanVote:7bb469a4da66";
+  "x/gov/types/actor.go:NetworkActor.Deactivate:acfd43f7c8e2";
+  "x/gov/types/actor.go:NetworkActor.HasRole:b73eed7a2cf6";
+  "x/gov/types/actor.go:NetworkActor.IsActive:7bea1241a891";
+  "x/gov/types/actor.go:NetworkActor.IsInactive:974ebce58724";
+  "x/gov/types/actor.go:NetworkActor.RemoveRole:68cb6283903a";
+  "x/gov/types/actor.go:NetworkActor.SetRole:5ec0a3566909";
+  "x/gov/types/actor.go:NewDefaultActor:ebfbb6485241";
+  "x/gov/types/actor.go:NewNetworkActor:114d6891db64";
+  "x/gov/types/router.go:NewProposalRouter:4bf97b47e730";
+  "x/gov/types/router.go:ProposalRouter.AllowedAddressesDynamicProposal:a548b84ebff0";
+  "x/gov/types/router.go:ProposalRouter.ApplyProposal:3175720e4bbe";
+  "x/gov/types/router.go:ProposalRouter.EnactmentPeriodDynamicProposal:9e6282a92738";
+  "x/gov/types/router.go:ProposalRouter.IsAllowedAddressDynamicProposal:348e19f6409b";
+  "x/gov/types/router.go:ProposalRouter.QuorumDynamicProposal:efbceda9b41e";
+  "x/gov/types/router.go:ProposalRouter.VotePeriodDynamicProposal:f1400a5efb9a";
+  "x/gov/types/types.go:NewPermissions:097a96db072d";
+  "x/gov/types/types.go:Permissions.AddToBlacklist:27dd3d194b31";
+  "x/gov/types/types.go:Permissions.AddToWhitelist:c305c0d1a21d";
+  "x/gov/types/types.go:Permissions.IsBlacklisted:67074784cb81";
+  "x/gov/types/types.go:Permissions.IsWhitelisted:f2ffb81463a6";
+  "x/gov/types/types.go:Permissions.RemoveFromBlacklist:61bde20a94e9";
+  "x/gov/types/types.go:Permissions.RemoveFromWhitelist:9e0269236a2b";
+  "x/layer2/keeper/keeper.go:Keeper.CheckIfAllowedPermission:f7640580cec1";
+  "x/recovery/keeper/msg_server.go:RotateRecoveryAddress/network_actor:2d76f4e3d8ff";
+  "x/recovery/keeper/msg_server.go:RotateValidatorByHalfRRTokenHolder/network_actor:2d76f4e3d8ff"
+]%string.
+Theorem C07_modelled_code_unchanged :
+  incl Gates.fingerprints expected_fingerprints /\ incl expected_fingerprints Gates.fingerprints.
+Proof. exact (incl_both_sound Gates.fingerprints expected_fingerprints eq_refl). Qed.
+Print Assumptions C07_modelled_code_unchanged.
 
 (* non-vacuity: a reachable state with roles, whitelists and blacklists satisfying the invariant,
    on which blacklist beats whitelist both ways and the voter set is the expected one; the repaired
